@@ -161,12 +161,12 @@ theorem walk_spec (P : Pack) (M : CacheModel) (K : CacheContract M) :
         (applyStrict kb.2 (deltaInfo delta)).map (fun r => (kb.1, r)) = some v →
         (M.get c cursor).1 = none →
         ∃ items stop c', walk P M fuel (M.get c cursor).2 baseOff
-            ({ off := cursor, info := deltaInfo delta, packed := packed } :: acc) = .ok (items ++ acc, stop, c') ∧
+            ({ off := cursor, info := deltaInfo delta, packed := packed, raw := delta } :: acc) = .ok (items ++ acc, stop, c') ∧
           K.Inv (IsObj P) c' ∧ replay stop.val items = some v ∧ items ≠ [] := by
       intro baseOff delta packed kb hb happ _
       obtain ⟨items, stop, c', h1, h2, h3, _⟩ := ih (M.get c cursor).2 baseOff
-        ({ off := cursor, info := deltaInfo delta, packed := packed } :: acc) kb hb (K.get_inv cursor hinv)
-      refine ⟨items ++ [{ off := cursor, info := deltaInfo delta, packed := packed }], stop, c', ?_, h2, ?_, by simp⟩
+        ({ off := cursor, info := deltaInfo delta, packed := packed, raw := delta } :: acc) kb hb (K.get_inv cursor hinv)
+      refine ⟨items ++ [{ off := cursor, info := deltaInfo delta, packed := packed, raw := delta }], stop, c', ?_, h2, ?_, by simp⟩
       · rw [h1]; simp
       · rw [replay_append, h3]
         obtain ⟨k, bd⟩ := kb
